@@ -69,7 +69,9 @@ TAG = "percentBu"               # tag that identifies which original an assembly
 # parameters of a COPY that legitimately differ from its source: identity, move bookkeeping, the rotation itself
 # (Core.add stamps a new assembly with its charge time / cycle / fissile mass / burnup on entry)
 COPY_DIFF_ASM = {"assemNum", "serialNum", "numMoves", "chargeTime", "chargeCycle", "chargeFis", "chargeBu"}
-COPY_DIFF_BLK = {"assemNum", "serialNum", "orientation"}
+COPY_DIFF_BLK = {"assemNum", "serialNum", "orientation", "displacementX", "displacementY"}   # (the displacement is observed as Obs.disp)
+DISP0_CM = (0.3, -0.2)          # displacement every block is built with, in cm (D0 of the specification); the parameter is in metres
+RTOL_DISP = 1e-12               # two products and a sum of doubles per rotation
 
 
 # ------------------------------------------------------------------------------------------------------------
@@ -260,6 +262,7 @@ class CoreAdapter:
                 for n in OTHER_SET + FX_SET:
                     b.p[n] = rng.uniform(0.5, 2.0)
                 b.p[TAG] = float(o) + k / 16.0
+                b.p.displacementX, b.p.displacementY = DISP0_CM[0] / 100.0, DISP0_CM[1] / 100.0      # a bowed core
         w.alias = np.array([3.0e11, 5.0e11, 7.0e11])
         w.alias0 = w.alias.copy()
         for a in w.orig.values():
@@ -555,10 +558,35 @@ class CoreAdapter:
         }
 
     # -- totals against the specification's coefficient vectors ---------------------------------------------
+    def measure_disp(self, w):
+        """per assembly (sorted cells) and block: displacement in cm, and coords() minus the centre of the assembly's cell"""
+        out = []
+        for a in sorted(w.core, key=lambda a: (int(a.spatialLocator.i), int(a.spatialLocator.j))):
+            cx, cy, _ = a.spatialLocator.getGlobalCoordinates()
+            out.append([(float(b.p.displacementX) * 100.0, float(b.p.displacementY) * 100.0,
+                         float(b.coords()[0]) - float(cx), float(b.coords()[1]) - float(cy)) for b in a])
+        return out
+
+    def check_disp(self, obs, measured):
+        """the displacement of every block against the exact numbers a + b*sqrt(3) the specification printed"""
+        r3 = math.sqrt(3.0)
+        if len(obs["disp"]) != len(measured):
+            return ".disp: %d assemblies expected, %d measured" % (len(obs["disp"]), len(measured))
+        for x, (quad, blocks) in enumerate(zip(obs["disp"], measured)):
+            (axn, axd), (bxn, bxd), (ayn, ayd), (byn, byd) = quad
+            ex = axn / axd + bxn / bxd * r3
+            ey = ayn / ayd + byn / byd * r3
+            for dx, dy, cdx, cdy in blocks:
+                for what, e, g, tol in (("x", ex, dx, RTOL_DISP), ("y", ey, dy, RTOL_DISP), ("coords.x", ex, cdx, 1e-6), ("coords.y", ey, cdy, 1e-6)):
+                    # (coords() is rounded to FLOAT_DIMENSION_DECIMALS and is a difference of numbers ~1e2: absolute 1e-6)
+                    if not (abs(e - g) <= tol * max(abs(e), abs(g)) + (1e-6 if what.startswith("coords") else 1e-15)):
+                        return ".disp[%d].%s: expected %r, observed %r" % (x, what, e, g)
+        return None
+
     def measure_totals(self, w):
         """what the core reports now (raw floats)"""
         core = w.core
-        t = {"volume": float(core.getVolume())}
+        t = {"volume": float(core.getVolume()), "disp": self.measure_disp(w)}
         for nuc in w.nucs:
             t["mass." + (nuc or "all")] = float(core.getMass(nuc or None))
         for p in VI_SCALARS:
@@ -570,6 +598,10 @@ class CoreAdapter:
 
     def check_totals(self, w, obs, measured=None):
         """the measured totals against the linear forms whose exact rational coefficients the specification printed"""
+        if "disp" in obs:
+            d = self.check_disp(obs, measured["disp"] if measured is not None else self.measure_disp(w))
+            if d:
+                return d
         if not obs["d"].get("totOk", True):
             return None     # an edited copy (one block more than its source) is in the core: totals are not comparable
         got = measured if measured is not None else self.measure_totals(w)
@@ -602,6 +634,8 @@ class CoreAdapter:
     def compare(self, w, obs, totals=True):
         got = self.project(w)
         d = rp.diff(obs["d"], got)
+        if d is None and not totals:
+            d = self.check_disp(obs, self.measure_disp(w))
         if d is None and totals:
             d = self.check_totals(w, obs)
         return d, got
@@ -877,11 +911,11 @@ def check_side_totals(rep, ad, res, side, prefix):
         k = p["at"] - 1
         if k >= len(totals):
             continue
-        obs = {"vol": p["vol"], "par": p["par"], "full": p["full"], "d": {"mult": p["mult"], "volOk": p["volOk"], "parOk": p["parOk"], "totOk": p["totOk"]}}
+        obs = {"vol": p["vol"], "par": p["par"], "full": p["full"], "d": {"mult": p["mult"], "volOk": p["volOk"], "parOk": p["parOk"], "totOk": p["totOk"]}, "disp": p["disp"]}
         d = ad.check_totals(w, obs, measured=totals[k])
         n += 1
         if d:
-            rep.violation("%s:%s:%s" % (prefix, p["br"], d.split(":")[0].strip(".")),
+            rep.violation("%s:%s:%s" % (prefix, p["br"], re.sub(r"\[\d+\]", "", d.split(":")[0]).strip(".")),
                           "totals reported by the core after event %d (%s) of recorded history %s differ from the specification's: %s" % (
                               k + 1, p["br"], p["coef"], d), {"direction": "trace-totals", "id": p["coef"], "event": k + 1, "difference": d})
     return n
@@ -1484,6 +1518,8 @@ def mutants():
         # -- convert ----------------------------------------------------------------------------------------
         ("convert rotates both copies by 120 degrees",
          S(T, "convert", "newAssem.rotate(count * angle)", "newAssem.rotate(angle)")),
+        ("rotating a block's displacement: sign of the dispx*sin term of the new y flipped",
+         S(blocks.HexBlock, "_rotateDisplacement", "dispx * math.sin(rad) + dispy * math.cos(rad)", "dispy * math.cos(rad) - dispx * math.sin(rad)")),
         ("convert does not scale the centre assembly",
          S(T, "convert", 'self._scaleBlockVolIntegratedParams(b, "up")', "pass")),
         ("convert forgets one of the added assemblies (restore leaves it behind)",
